@@ -550,3 +550,20 @@ def cases(tier, seed):
     for i in range(N):
         yield {"seed": seed * 9973 + i // 2, "nseg": 2 + (i // 2) % 5, "valuation": VALUATIONS[i % len(VALUATIONS)],
                "zero_trip": i % 25 == 0, "sample": i % 400 == 0}
+    # ON .. GOSUB / GOTO with as many targets as a Color BASIC line holds (the emitted statement is longer than 255
+    # characters), and the chosen subroutine changes the selector: the selector is looked at once
+    def pr(t):
+        return ("print", [("e", ("str", t))], None)
+
+    for ntg in (46, 56, 60):
+        for first, newk in ((1, 50), (2, 47), (ntg, 1), (45, 46)):
+            for how in ("GOSUB", "GOTO"):
+                tg = [100 + k for k in range(ntg)]
+                prog = [(10, [("let", ("var", "K"), n(first), False)]), (20, [("on", ("var", "K"), how, tg), pr("BACK")]), (30, [pr("DONE"), ("end",)])]
+                for k, t in enumerate(tg):
+                    body = [pr("S%d" % (k + 1))]
+                    if k + 1 == first:
+                        body.append(("let", ("var", "K"), n(newk), False))
+                    body.append(("return",) if how == "GOSUB" else ("goto", 30))
+                    prog.append((t, body))
+                yield {"seed": ntg * 100 + first, "nseg": 0, "valuation": VALUATIONS[0], "fixed": prog}
